@@ -105,7 +105,13 @@ class Capture:
             try:
                 nf = w1.grid.num_faces
                 dg = np.abs(matrix.diagonal()[:nf])
-                rec["contrast"] = float(dg.max() / dg.min()) if nf and dg.min() > 0 else (float("inf") if nf else 1.0)
+                # coefficient range of the flux block, also relative to the unit-mobility entry (cell volume):
+                # eps-regularised mobilities on vanishing flux norms give entries ~1e15 x volume
+                vol = float(np.prod(w1.grid.voxel_size))
+                if nf and dg.min() > 0:
+                    rec["contrast"] = float(max(dg.max() / dg.min(), dg.max() / vol, vol / dg.min()))
+                else:
+                    rec["contrast"] = float("inf") if nf else 1.0
                 r = matrix @ out[0] - rhs
                 rec["residual"] = float(np.max(np.abs(r))) if np.all(np.isfinite(r)) else float("inf")
             except Exception:
